@@ -78,6 +78,169 @@ class RealMaps:
         _am.create_map, _am.mmap = self._saved
 
 
+class SimBpf:
+    """`with SimBpf(kernel):` everything the life cycle of a fast sync group
+    asks of the kernel lands in `kernel` (a bpfvm.Kernel):
+
+      ebpfcat.arraymap.create_map / mmap          (SimMaps: the array maps)
+      ebpfcat.ebpfcat.create_map                  (the PROG_ARRAY of a master)
+      ebpfcat.ebpfcat.lookup_elem / update_elem / delete_elem
+                                                  (register_sync_group)
+      ebpfcat.bpf.prog_load                       (EBPF.load)
+      ebpfcat.ebpf.os.close                       (EBPF.close)
+
+    with the error behaviour of the wrappers in ebpfcat/bpf.py (a missing
+    element is KeyError, an index beyond the table IndexError, a closed or
+    foreign descriptor OSError(EBADF)).  A program array keeps the *program*
+    it was given, not the descriptor number: closing the descriptor (as
+    register_sync_group does right after the update) changes nothing, and
+    descriptor numbers are never handed out twice.  `loaded[pid]` remembers
+    for every program the array maps it refers to, so that a harness can
+    tell whose program sits in a slot; `log` lists the table edits."""
+
+    def __init__(self, kernel):
+        self.kernel = kernel
+        self.maps = SimMaps(kernel)
+        self.loaded = {}      # pid -> dict(maps=frozenset(map fds), open=bool)
+        self.log = []
+
+    @staticmethod
+    def _newfd():
+        fd = SimMaps._next_fd[0]
+        SimMaps._next_fd[0] += 1
+        return fd
+
+    # -- ebpfcat.ebpfcat.create_map
+    def create_map(self, map_type, key_size, value_size, max_entries,
+                   attributes=None):
+        mtype = getattr(map_type, "value", map_type)
+        if mtype != bpfvm.BpfMap.PROG_ARRAY:
+            return self.maps.create_map(map_type, key_size, value_size,
+                                        max_entries, attributes)
+        if key_size != 4 or value_size != 4:
+            raise OSError(22, "prog array key/value size")
+        fd = self._newfd()
+        self.kernel.maps[fd] = bpfvm.BpfMap(bpfvm.BpfMap.PROG_ARRAY, 4, 4,
+                                            max_entries)
+        return fd
+
+    def _table(self, fd):
+        m = self.kernel.maps.get(fd)
+        if m is None:
+            raise OSError(9, "Bad file descriptor")
+        if m.type != bpfvm.BpfMap.PROG_ARRAY:
+            raise AssertionError("map call on something that is not a "
+                                 "program table")
+        return m
+
+    @staticmethod
+    def _index(m, key):
+        key = bytes(key)
+        if len(key) < m.key_size:
+            raise AssertionError("short key buffer")
+        return struct.unpack_from("<I", key)[0]
+
+    def lookup_elem(self, fd, key, fmt):
+        m = self._table(fd)
+        i = self._index(m, key)
+        if i >= m.max_entries or i not in m.progs:
+            raise KeyError
+        value = struct.pack("<I", 1000 + (m.progs[i] & 0xffffff))
+        if isinstance(fmt, int):
+            return bytearray(value[:fmt].ljust(fmt, b"\0"))
+        return struct.unpack(fmt, value[:struct.calcsize(fmt)])[0]
+
+    def update_elem(self, fd, key, value, flags=None):
+        m = self._table(fd)
+        i = self._index(m, key)
+        if getattr(flags, "value", flags) not in (None, 0):
+            raise OSError(22, "prog array update flags")
+        if i >= m.max_entries:
+            raise IndexError("map is full")
+        pid = struct.unpack_from("<I", bytes(value))[0]
+        ent = self.loaded.get(pid)
+        if ent is None or not ent["open"]:
+            raise OSError(9, "Bad file descriptor")
+        m.progs[i] = pid
+        self.log.append(("update", fd, i, pid))
+        return 0
+
+    def delete_elem(self, fd, key):
+        m = self._table(fd)
+        i = self._index(m, key)
+        if i >= m.max_entries or i not in m.progs:
+            raise KeyError
+        self.log.append(("delete", fd, i, m.progs[i]))
+        del m.progs[i]
+        return 0
+
+    # -- ebpfcat.bpf.prog_load
+    def prog_load(self, prog_type, insns, license, log_level=0,
+                  log_size=4096, kern_version=0, flags=0, name="", ifindex=0,
+                  attach_type=0):
+        code = bytes(insns)
+        try:
+            decoded = bpfvm.decode(code)
+        except bpfvm.Trap as e:
+            raise OSError(22, str(e))
+        refs = set()
+        for ins in decoded:
+            if ins is not None and ins[0] == 0x18 and ins[2] == 1:
+                mfd = ins[4] & 0xffffffff
+                if mfd not in self.kernel.maps:
+                    raise OSError(9, "program refers to a bad map fd")
+                refs.add(mfd)
+        pid = self._newfd()
+        self.kernel.progs[pid] = decoded
+        self.loaded[pid] = dict(maps=frozenset(refs), open=True, code=code)
+        return pid, ("" if log_level else None)
+
+    # -- ebpfcat.ebpf.os
+    class _Os:
+        def __init__(self, outer):
+            self._outer = outer
+
+        def close(self, fd):
+            ent = self._outer.loaded.get(fd)
+            if ent is None:
+                return os.close(fd)
+            if not ent["open"]:
+                raise OSError(9, "Bad file descriptor")
+            ent["open"] = False
+
+        def __getattr__(self, name):
+            return getattr(os, name)
+
+    def map_fd_of(self, area):
+        """descriptor of the array map whose storage `area` is"""
+        for fd, m in self.kernel.maps.items():
+            if m.type == bpfvm.BpfMap.ARRAY and m.area is area:
+                return fd
+        return None
+
+    def __enter__(self):
+        import ebpfcat.bpf as _bpf
+        import ebpfcat.ebpfcat as _ec
+        self.maps.__enter__()
+        self._saved = [(_ec, n, getattr(_ec, n)) for n in
+                       ("create_map", "lookup_elem", "update_elem",
+                        "delete_elem")]
+        self._saved += [(_bpf, "prog_load", _bpf.prog_load),
+                        (_ebpf, "os", _ebpf.os)]
+        _ec.create_map = self.create_map
+        _ec.lookup_elem = self.lookup_elem
+        _ec.update_elem = self.update_elem
+        _ec.delete_elem = self.delete_elem
+        _bpf.prog_load = self.prog_load
+        _ebpf.os = SimBpf._Os(self)
+        return self
+
+    def __exit__(self, *exc):
+        for mod, name, val in reversed(self._saved):
+            setattr(mod, name, val)
+        self.maps.__exit__(*exc)
+
+
 @contextmanager
 def reown_seam():
     """Defect-model seam for the finding 'dispatcher cannot be generated'
@@ -126,10 +289,13 @@ def reown_seam():
 class Dispatcher:
     """the real EtherXDP program, assembled; maps in `kernel` or the real one"""
 
-    def __init__(self, kernel=None, seam=False):
+    def __init__(self, kernel=None, seam=False, programs_fd=None):
+        """programs_fd: an existing program table in `kernel` (e.g. the one
+        a master created through the SimBpf seam) instead of a fresh one"""
         self.kernel = kernel
         self.seam = seam
         self.real = kernel is None
+        self._given_programs = programs_fd
         maps = SimMaps(kernel) if kernel is not None else RealMaps()
         with maps:
             if seam:
@@ -140,7 +306,9 @@ class Dispatcher:
 
     def _build(self):
         e = self.ebpf = EtherXDP()
-        if self.real:
+        if self._given_programs is not None:
+            self.programs_fd = self._given_programs
+        elif self.real:
             self.programs_fd = kern.map_create(3, 4, 4, MAX_PROGS)
         else:
             self.programs_fd = SimMaps._next_fd[0]
@@ -203,15 +371,15 @@ class Dispatcher:
                 pass
 
 
-def build_dispatcher(kernel=None):
+def build_dispatcher(kernel=None, programs_fd=None):
     """-> (Dispatcher, note).  note is None when the unmodified generator
     produced the program, else the generator's error message (the program
     was then built under `reown_seam`)."""
     try:
-        return Dispatcher(kernel, seam=False), None
+        return Dispatcher(kernel, seam=False, programs_fd=programs_fd), None
     except AssembleError as e:
         note = f"AssembleError: {e}"
-    return Dispatcher(kernel, seam=True), note
+    return Dispatcher(kernel, seam=True, programs_fd=programs_fd), note
 
 
 # ------------------------------------------------------------------ terminals
@@ -273,29 +441,8 @@ class FastGroup:
 
     # frame positions are EtherCAT-payload relative; + ETH in the raw frame
     def writers(self):
-        """[(cmd position, wkc position, command value, expected wkc)] of the
-        write datagrams, found by parsing the assembled (non-sterile) frame
-        independently - NOT from SterilePacket's own on_the_fly list, so that
-        bookkeeping errors there (stale or foreign entries) are visible"""
-        from . import ecparse
-        try:
-            _, dgs = ecparse.parse(self.assembled)
-        except ecparse.ParseError:
-            # a group without any datagram: only the identification datagram
-            return []
-        out = []
-        # the expected working counter is the number of terminals that
-        # process the datagram, counted here from the terminals themselves
-        # (not from SterilePacket.counters): one for a directly addressed
-        # write, every output-mapped FMMU terminal for the logical write
-        n_lwr = sum(1 for t, rw in self.sg.terminals.items()
-                    if rw and t.use_fmmu and t.pdo_out_sz)
-        for d in dgs[1:]:
-            if d.cmd in (2, 3, 5, 6, 8, 9, 11, 12):
-                expected = {5: 1, 11: n_lwr}.get(
-                    d.cmd, self.packet.counters[d.wkc_pos])
-                out.append((d.hdr_pos, d.wkc_pos, d.cmd, expected))
-        return out
+        """see `writers_of`"""
+        return writers_of(self.sg, self.assembled)
 
     def var_off(self, device, name):
         return device.__dict__[name]
@@ -328,6 +475,33 @@ class FastGroup:
                 self.area.close()
             except Exception:
                 pass
+
+
+def writers_of(sg, assembled):
+    """[(cmd position, wkc position, command value, expected wkc)] of the
+    write datagrams of an allocated FastSyncGroup, found by parsing its
+    assembled (non-sterile) frame independently - NOT from SterilePacket's
+    own on_the_fly list, so that bookkeeping errors there (stale or foreign
+    entries) are visible.  Positions are EtherCAT-payload relative."""
+    from . import ecparse
+    try:
+        _, dgs = ecparse.parse(assembled)
+    except ecparse.ParseError:
+        # a group without any datagram: only the identification datagram
+        return []
+    out = []
+    # the expected working counter is the number of terminals that
+    # process the datagram, counted here from the terminals themselves
+    # (not from SterilePacket.counters): one for a directly addressed
+    # write, every output-mapped FMMU terminal for the logical write
+    n_lwr = sum(1 for t, rw in sg.terminals.items()
+                if rw and t.use_fmmu and t.pdo_out_sz)
+    for d in dgs[1:]:
+        if d.cmd in (2, 3, 5, 6, 8, 9, 11, 12):
+            expected = {5: 1, 11: n_lwr}.get(
+                d.cmd, sg.packet.counters[d.wkc_pos])
+            out.append((d.hdr_pos, d.wkc_pos, d.cmd, expected))
+    return out
 
 
 def reset_globals():
